@@ -38,6 +38,9 @@ def alphabet(F, rng):
         add(1, 'get_trace', [t1, NONE, NONE])
         add(2, 'get_trace', [t1, NONE, NONE])
         add(1, 'get_trace', [t0, 1, min(nz, 6)])
+        if nz > F['b'][2] + 2:          # a window that starts in the second z-block, then one spanning both
+            add(1, 'get_trace', [t0, F['b'][2] + 1, min(nz, F['b'][2] + 5)])
+            add(1, 'get_trace', [t0, 2, min(nz, F['b'][2] + 5)])
         add(1, 'read_subplane', [0, min(nx, 3), 0, min(nz, 5)])
         add(1, 'read_subplane', [0, min(nx, 3), 1, min(nz, 5)])
         add(1, 'read_subplane', [1, min(nx, 3), 0, min(nz, 5)])
@@ -65,6 +68,7 @@ def alphabet(F, rng):
     add(1, 'get_trace', [t0, NONE, NONE])
     add(1, 'get_trace', [t1, NONE, NONE])
     add(1, 'get_trace', [t0, 2, min(nz, 9)])
+    add(1, 'get_trace', [t0, 1, min(nz, 3)])          # same column, same first z-block, ends earlier (chunk key must carry max_z)
     add(2, 'get_trace', [t1, NONE, NONE])
     add(1, 'read_correlated_diagonal', [0, NONE, NONE, NONE, NONE])
     add(1, 'read_anticorrelated_diagonal', [min(ni, nx) - 1, NONE, NONE, NONE, NONE])
